@@ -62,13 +62,16 @@ func (o output) key() string {
 	return b.String()
 }
 
-func programs(thorough bool) []program {
+func programs(thorough bool) []program { return programsN(thorough, 10) }
+
+// programsN: slices of n rows / bodies per table.
+func programsN(thorough bool, n int) []program {
 	var out []program
 	per := 1
 	if thorough {
 		per = 2
 	}
-	for _, p := range c11.Programs(10, per) {
+	for _, p := range c11.Programs(n, per) {
 		p := p
 		out = append(out, program{p.Name, func() output {
 			t, v, err := p.Run()
@@ -79,7 +82,7 @@ func programs(thorough bool) []program {
 			return o
 		}})
 	}
-	for _, p := range c10.Programs(8, per) {
+	for _, p := range c10.Programs(n, per) {
 		p := p
 		out = append(out, program{p.Name, func() output {
 			t, v := p.Run()
@@ -269,6 +272,10 @@ func explorePair(c *vf.Ctx, a, b program, seqA, seqB string, bound int, base map
 	}
 	rec(nil)
 	c.Tally("schedules:"+a.name+"+"+b.name, count)
+	if s := runSchedule(a, b, []int{0, 0, 0, 0, 0, 1}); len(s.sites) > 5 {
+		c.Sample(map[string]any{"pair": a.name + " + " + b.name, "schedules_explored": count, "example_schedule": "run " + a.name + " until its 6th scheduling point (" + s.sites[5] + "), then " + b.name + " to completion, then the rest of " + a.name,
+			"outputs_equal_sequential": s.out[0].key() == seqA && s.out[1].key() == seqB})
+	}
 }
 
 func siteOf(s *sched) string {
@@ -280,27 +287,21 @@ func siteOf(s *sched) string {
 	return "-"
 }
 
-func stageB(c *vf.Ctx, progs []program) {
-	bound := 1
-	if c.Thorough() {
-		bound = 2
-	}
+// stageB explores pairs of progs; partners(i) lists the indices program i is paired with.
+func stageB(c *vf.Ctx, progs []program, bound int, partners func(i int) []int, idx *int64) {
 	seq := make([]string, len(progs))
 	for i, p := range progs {
 		p.run() // warm-up
 		seq[i] = p.run().key()
 	}
 	base := fingerprint()
-	var idx int64
 	for i, a := range progs {
-		for j, b := range progs {
-			k := idx
-			idx++
+		for _, j := range partners(i) {
+			b := progs[j]
+			k := *idx
+			*idx++
 			if !c.MineIdx(k) {
 				continue
-			}
-			if bound >= 2 && !(i <= j) {
-				continue // bound 2 explores both orders of preemption from one ordered pair
 			}
 			explorePair(c, a, b, seq[i], seq[j], bound, base)
 			// determinism of the harness: one schedule with a preemption in the middle, run twice
@@ -378,7 +379,7 @@ func raceReports(text string) []raceReport {
 			for _, l := range lines[1:] {
 				l = strings.TrimSpace(l)
 				if strings.HasPrefix(l, "github.com/goplus/gogen") || strings.HasPrefix(l, "go/types") {
-					if j := strings.Index(l, "("); j > 0 {
+					if j := strings.LastIndex(l, "("); j > 0 {
 						l = l[:j]
 					}
 					frames = append(frames, strings.TrimPrefix(l, "github.com/goplus/gogen"))
@@ -460,7 +461,39 @@ func run(c *vf.Ctx) {
 	progs := programs(c.Thorough())
 	c.Note(fmt.Sprintf("%d programs, %d package-level variables fingerprinted", len(progs), len(gogen.VerifAllGlobals())))
 	stageA(c, progs)
-	stageB(c, progs)
+	var idx int64
+	if !c.Thorough() {
+		// quick: 5-row programs; every program against itself, its successor and the mixed program; 1 preemption
+		small := programsN(false, 5)
+		n := len(small)
+		stageB(c, small, 1, func(i int) []int {
+			out := []int{i, (i + 1) % n}
+			if i != n-1 && (i+1)%n != n-1 {
+				out = append(out, n-1)
+			}
+			return out
+		}, &idx)
+	} else {
+		// thorough: all ordered pairs of the 10-row programs with 1 preemption ...
+		n := len(progs)
+		all := func(int) []int {
+			out := make([]int, n)
+			for i := range out {
+				out[i] = i
+			}
+			return out
+		}
+		stageB(c, progs, 1, all, &idx)
+		// ... and all unordered pairs of 2-row programs with 2 preemptions
+		tiny := programsN(true, 2)
+		stageB(c, tiny, 2, func(i int) []int {
+			var out []int
+			for j := i; j < len(tiny); j++ {
+				out = append(out, j)
+			}
+			return out
+		}, &idx)
+	}
 	stageC(c)
 }
 
@@ -469,7 +502,7 @@ func replay(raw json.RawMessage) (string, bool) {
 	if err := json.Unmarshal(raw, &p); err != nil {
 		return err.Error(), false
 	}
-	progs := programs(true)
+	progs := append(append(append(programs(true), programsN(false, 5)...), programsN(true, 2)...), programs(false)...)
 	find := func(n string) *program {
 		for i := range progs {
 			if progs[i].name == n {
